@@ -5,5 +5,5 @@ if [ "$1" = "-R" ]; then REV="-R"; shift; fi
 D=$(mktemp -d /tmp/tp.XXXXXX)
 cp -r /repo/src /repo/Cargo.toml /repo/Cargo.lock $D/ && cd $D && git init -q && git apply $REV "$P" || { echo APPLY-FAILED; rm -rf $D; exit 2; }
 cd /verif
-for p in "$@"; do ATSA_REPO=$D ATSA_EVIDENCE_DIR=$D/ev ./check $p > $D/try_$p.out 2>&1; echo "$p exit=$? $(grep -c '^VIOLATION' $D/try_$p.out) violations; $(grep -m3 'rule ' $D/try_$p.out | cut -c1-260)"; done
+for p in "$@"; do ATSA_REPO=$D ATSA_EVIDENCE_DIR=$D/ev ./check $p > $D/try_$p.out 2>&1; rc=$?; nv=$(grep -c '^VIOLATION' $D/try_$p.out); echo "$p exit=$rc $nv violations; $(grep -m3 'rule ' $D/try_$p.out | cut -c1-260)"; if [ $rc != 0 ] && [ "$nv" = 0 ]; then tail -8 $D/try_$p.out; fi; done
 rm -rf $D
